@@ -11,6 +11,7 @@ import Gv.Model.Eval
 import Gv.Proofs.GenLemmas
 import Gv.Props.C02
 import Gv.Proofs.Fresh
+import Gv.Proofs.FreshS
 
 namespace Gv.Props.C04
 open Gv Gv.Gen Gv.Eval
@@ -131,5 +132,263 @@ theorem C04_result_unshared (p : Program) (hchk : PlanCheck.checkProg p = true)
 /-- non-vacuity: for the example program of C02 the result's cells are the two allocated ones -/
 example : Gv.Sound.allLocs Gv.Props.C02.exResult = [.fresh 0, .fresh 1] := by
   simp [Gv.Sound.allLocs, Gv.Sound.allLocs.locsFields, Gv.Sound.allLocs.locsList, Gv.Props.C02.exResult]
+
+/-! ### The composite theorem with skipCopySameType: sharing occurs only at positions with identical types
+
+With skipCopySameType the generator emits `.ident` (the source expression itself) at every position whose source and target
+types are identical – slices, maps, pointers, structs, named types, not only basic types.  `PlanCheckS.checkProgS` is the
+checker of the structural fragment extended by exactly these nodes (`.ident` at `s == t`).  For every program it accepts,
+every method, every well-typed source value made of cells that exist before the call (the caller's cells `src k`, or cells
+`fresh k` allocated earlier, `k < n`), and any fuel: each reference cell of the result is EITHER allocated during the call
+(counter interval `[n, n')`) OR a cell of the source that lies in the sub-value which an `.ident` node at a position with
+identical source and target types received (`Sound.SharedCall` / `Sound.SharedAt`: the walk along the plan over the source
+value down to that node); and no cell allocated during the call occurs twice in the result. -/
+
+open Gv.Typing Gv.Sound in
+theorem C04_skipcopy_composite (p : Program) (hchk : PlanCheckS.checkProgS p = true)
+    (fuel m : Nat) (s t : Ty) (v : Val) (n : Nat) (v' : Val) (n' : Nat)
+    (hsig : sigOf p m = some (s, t)) (hwt : WT p.conv.env v s)
+    (hsrc : ∀ l, l ∈ allLocs v → ∀ k, l = .fresh k → k < n)
+    (hev : callMethod p fuel m v [] n = .ok (v', n')) :
+    n ≤ n' ∧
+    (∀ l, l ∈ allLocs v' → (∃ k, l = .fresh k ∧ n ≤ k ∧ k < n') ∨ (l ∈ allLocs v ∧ SharedCall p m v l)) ∧
+    ((allLocs v').filter (isNew n)).Nodup :=
+  callMethod_freshS p (checkProgS_sound p hchk) fuel m s t v n v' n' hsig hwt (oldL_of_lt hsrc) hev
+
+open Gv.Typing Gv.Sound in
+/-- a cell that is both in the result and in the source got there through a sharing position: an `.ident` node at identical
+source and target types whose input (a sub-value of the source) contains the cell -/
+theorem C04_skipcopy_sharing_only_identical (p : Program) (hchk : PlanCheckS.checkProgS p = true)
+    (fuel m : Nat) (s t : Ty) (v : Val) (n : Nat) (v' : Val) (n' : Nat)
+    (hsig : sigOf p m = some (s, t)) (hwt : WT p.conv.env v s)
+    (hsrc : ∀ l, l ∈ allLocs v → ∀ k, l = .fresh k → k < n)
+    (hev : callMethod p fuel m v [] n = .ok (v', n'))
+    (l : Loc) (hres : l ∈ allLocs v') (hin : l ∈ allLocs v) : SharedCall p m v l := by
+  obtain ⟨_, h2, _⟩ := C04_skipcopy_composite p hchk fuel m s t v n v' n' hsig hwt hsrc hev
+  rcases h2 l hres with ⟨k, rfl, hk, _⟩ | ⟨_, hsh⟩
+  · have := hsrc _ hin k rfl
+    omega
+  · exact hsh
+
+open Gv.Typing Gv.Sound in
+/-- the cells the walk to a sharing position finds are cells of the source, and the node it ends in is `.ident` at
+identical types (the only constructor of `SharedAt` that does not descend) -/
+theorem C04_shared_cell_is_source_cell (p : Program) (m : Nat) (v : Val) (l : Loc) (h : SharedCall p m v l) : l ∈ allLocs v := by
+  obtain ⟨gm, c, _, _, h⟩ := h
+  exact h.mem_src
+
+open Gv.Typing Gv.Sound in
+theorem C04_shared_at_ident_identical (p : Program) (s t : Ty) (v : Val) (l : Loc) (h : SharedAt p .ident s t v l) :
+    s = t ∧ l ∈ allLocs v := by
+  cases h with
+  | ident hl => exact ⟨rfl, hl⟩
+
+open Gv.Typing Gv.Sound in
+/-- without a sharing position (`progHasShare p = false`: no `.ident` at identical non-basic types in any method body) the
+extended checker is the old one and the old statement holds: every cell of the result is allocated during the call, once -/
+theorem C04_no_skipcopy_no_sharing (p : Program) (hchk : PlanCheckS.checkProgS p = true)
+    (hno : PlanCheckS.progHasShare p = false)
+    (fuel m : Nat) (s t : Ty) (v : Val) (n : Nat) (v' : Val) (n' : Nat)
+    (hsig : sigOf p m = some (s, t)) (hwt : WT p.conv.env v s)
+    (hev : callMethod p fuel m v [] n = .ok (v', n')) :
+    AllocL n n' (allLocs v') :=
+  C04_composite p ((checkProg_iff_checkProgS_noShare p).2 ⟨hchk, hno⟩) fuel m s t v n v' n' hsig hwt hev
+
+/-- the old fragment is the extended one without sharing positions -/
+theorem C04_checkProg_iff (p : Program) :
+    PlanCheck.checkProg p = true ↔ (PlanCheckS.checkProgS p = true ∧ PlanCheckS.progHasShare p = false) :=
+  Gv.Sound.checkProg_iff_checkProgS_noShare p
+
+open Gv.Typing Gv.Sound in
+/-- the same from the composite: if no cell of the source is at a sharing position, nothing is shared -/
+theorem C04_skipcopy_no_shared_cell (p : Program) (hchk : PlanCheckS.checkProgS p = true)
+    (fuel m : Nat) (s t : Ty) (v : Val) (n : Nat) (v' : Val) (n' : Nat)
+    (hsig : sigOf p m = some (s, t)) (hwt : WT p.conv.env v s)
+    (hsrc : ∀ l, l ∈ allLocs v → ∀ k, l = .fresh k → k < n)
+    (hno : ∀ l, l ∈ allLocs v → ¬ SharedCall p m v l)
+    (hev : callMethod p fuel m v [] n = .ok (v', n')) :
+    AllocL n n' (allLocs v') :=
+  allocS_noShare (callMethod_freshS p (checkProgS_sound p hchk) fuel m s t v n v' n' hsig hwt (oldL_of_lt hsrc) hev) hno
+
+open Gv.Typing Gv.Sound in
+/-- a cell of a well-typed source at a sharing position (in particular: a cell that is both in the result and in the source)
+exists only in a program whose plans contain a sharing position in the sense of the checker (`.ident` at identical
+non-basic types) -/
+theorem C04_skipcopy_shared_cell_has_position (p : Program) (hchk : PlanCheckS.checkProgS p = true)
+    (m : Nat) (s t : Ty) (v : Val) (hsig : sigOf p m = some (s, t)) (hwt : WT p.conv.env v s)
+    (l : Loc) (h : SharedCall p m v l) : PlanCheckS.progHasShare p = true :=
+  sharedCall_progHasShare (checkProgS_sound p hchk) hsig hwt h
+
+/-! non-vacuity: a struct with two `[]int` fields, `A` passed on as it is (`.ident` at identical types: skipCopySameType),
+`B` converted by a list node -/
+
+def exSFields : Fields :=
+  .cons { name := "A".toList, exported := true, embedded := false, pkg := [] } (.slice (.basic .int))
+    (.cons { name := "B".toList, exported := true, embedded := false, pkg := [] } (.slice (.basic .int)) .nil)
+
+def exSPlan : Conv :=
+  .structc (.cons (.mapped "A".toList ["A".toList] [false] false false .ident .none)
+    (.cons (.mapped "B".toList ["B".toList] [false] false false (.list (.basic .int) true true .ident) .none) .nil)) false
+
+def exSMethod : GenMethod :=
+  { name := "Convert".toList, source := .struct exSFields, target := .struct exSFields, args := [], contexts := [],
+    returnError := false, updateTarget := false, explicit := true, dirty := false, originPath := [], originName := [],
+    cfg := { common := {} }, body := some (.convert exSPlan) }
+
+def exSProgram : Program :=
+  { conv := { env := [], common := {}, outputPkg := [], customs := [], extend := [], orc := {} }, methods := [exSMethod] }
+
+/-- accepted by the extended checker, with a sharing position, and not by the old checker -/
+example : PlanCheckS.checkProgS exSProgram = true := by decide
+example : PlanCheckS.progHasShare exSProgram = true := by decide
+example : PlanCheck.checkProg exSProgram = false := by decide
+
+def exSValue : Val :=
+  .struct [("A".toList, .slice (.src 1) [.basic "1".toList, .basic "2".toList]),
+           ("B".toList, .slice (.src 2) [.basic "3".toList])]
+
+def exSResult : Val :=
+  .struct [("A".toList, .slice (.src 1) [.basic "1".toList, .basic "2".toList]),
+           ("B".toList, .slice (.fresh 0) [.basic "3".toList])]
+
+/-- the conversion succeeds: `A`'s slice is the source's (location `src 1`), `B`'s is re-made (location `fresh 0`) -/
+example : Eval.callMethod exSProgram 10 0 exSValue [] 0 = .ok (exSResult, 1) := by
+  unfold Eval.callMethod
+  simp [exSProgram, exSMethod, exSPlan, exSValue, exSResult, exSFields, evalConv, evalFields, evalElems, walk, fieldOf, setField,
+    normStruct, zeroVal, zeroVal.zeroFields, under, Fields.toList, Val.isAbsent, bind, StateT.bind, pure, StateT.pure, freshLoc,
+    List.lookup]
+
+example : Gv.Sound.allLocs exSValue = [.src 1, .src 2] := by
+  simp [Gv.Sound.allLocs, Gv.Sound.allLocs.locsFields, Gv.Sound.allLocs.locsList, exSValue]
+
+example : Gv.Sound.allLocs exSResult = [.src 1, .fresh 0] := by
+  simp [Gv.Sound.allLocs, Gv.Sound.allLocs.locsFields, Gv.Sound.allLocs.locsList, exSResult]
+
+/-- the cells of the source exist before the call (hypothesis `hsrc` of the composite) -/
+example : ∀ l, l ∈ Gv.Sound.allLocs exSValue → ∀ k, l = .fresh k → k < 0 := by
+  intro l hl k hk
+  subst hk
+  simp [Gv.Sound.allLocs, Gv.Sound.allLocs.locsFields, Gv.Sound.allLocs.locsList, exSValue] at hl
+
+open Gv.Typing in
+/-- `exSValue` is a well-typed value of the source type -/
+example : WT [] exSValue (.struct exSFields) := by
+  refine .struct (tfs := exSFields) rfl ?_
+  intro name x f ty hl hf
+  by_cases hA : name = "A".toList
+  · subst hA
+    simp [List.lookup] at hl
+    simp [exSFields, Fields.toList] at hf
+    obtain ⟨_, rfl⟩ := hf; subst hl
+    refine .slice (e := .basic .int) rfl ?_
+    intro v hv
+    simp at hv
+    rcases hv with rfl | rfl <;> exact .basic (k := .int) rfl
+  · by_cases hB : name = "B".toList
+    · subst hB
+      simp [List.lookup] at hl
+      simp [exSFields, Fields.toList, List.find?] at hf
+      obtain ⟨_, rfl⟩ := hf; subst hl
+      refine .slice (e := .basic .int) rfl ?_
+      intro v hv
+      simp at hv
+      subst hv
+      exact .basic (k := .int) rfl
+    · exfalso
+      have h1 : (name == ['A']) = false := by simpa using hA
+      have h2 : (name == ['B']) = false := by simpa using hB
+      simp [List.lookup] at hl
+      simp [h1, h2] at hl
+
+open Gv.Sound in
+/-- the shared cell `src 1` is at a sharing position: field `A`, `.ident` at `[]int → []int` -/
+example : SharedCall exSProgram 0 exSValue (.src 1) := by
+  refine ⟨exSMethod, exSPlan, rfl, rfl, ?_⟩
+  refine .structc (sfs := exSFields) (tfs := exSFields) rfl rfl ?_
+  simp only [exSFields, Fields.toList]
+  refine SharedAtFields.here (tf := { name := "A".toList, exported := true, embedded := false, pkg := [] }) (sf := { name := "A".toList, exported := true, embedded := false, pkg := [] })
+    (sty := .slice (.basic .int)) (x := .slice (.src 1) [.basic "1".toList, .basic "2".toList]) rfl ?_ ?_ ?_
+  · rfl
+  · rfl
+  · exact .ident (by simp [allLocs, allLocs.locsList])
+
+open Gv.Sound in
+/-- … while `B`'s source cell `src 2` is at no sharing position (the list node re-makes the slice) -/
+example : ¬ SharedCall exSProgram 0 exSValue (.src 2) := by
+  rintro ⟨gm, c, hm, hb, h⟩
+  have hgm : gm = exSMethod := by simpa [exSProgram] using hm.symm
+  subst hgm
+  have hc : c = exSPlan := by simpa [exSMethod] using hb.symm
+  subst hc
+  unfold exSPlan exSValue at h
+  cases h with
+  | @structc _ _ sfs tfs _ _ _ _ h1 h2 hf =>
+    have e1 : sfs = exSFields := by simpa [exSMethod, exSProgram, under] using h1.symm
+    have e2 : tfs = exSFields := by simpa [exSMethod, exSProgram, under] using h2.symm
+    subst e1; subst e2
+    generalize hsl : exSFields.toList = sl at hf
+    cases hf with
+    | here htn _ hx h =>
+      rw [← htn] at hx
+      simp [List.lookup] at hx
+      subst hx
+      cases h with
+      | ident hl => simp [allLocs, allLocs.locsList] at hl
+    | there hf =>
+      cases hf with
+      | here htn _ hx h =>
+        rw [← htn] at hx
+        simp [List.lookup] at hx
+        subst hx
+        cases h with
+        | slice _ _ hx h =>
+          simp at hx
+          subst hx
+          cases h with
+          | ident hl => simp [allLocs] at hl
+      | there hf => cases hf
+
+/-! non-vacuity with a method call: field `A` is converted by a call of method 1, whose body is `.ident` at `[]int → []int` -/
+
+def exCFields : Fields :=
+  .cons { name := "A".toList, exported := true, embedded := false, pkg := [] } (.slice (.basic .int)) .nil
+
+def exCPlan : Conv :=
+  .structc (.cons (.mapped "A".toList ["A".toList] [false] false false
+    (.call (.method 1) [.source] false { mode := .none, path := [] }) .none) .nil) false
+
+def exCProgram : Program :=
+  { conv := { env := [], common := {}, outputPkg := [], customs := [], extend := [], orc := {} },
+    methods := [
+      { name := "Convert".toList, source := .struct exCFields, target := .struct exCFields, args := [], contexts := [],
+        returnError := false, updateTarget := false, explicit := true, dirty := false, originPath := [], originName := [],
+        cfg := { common := {} }, body := some (.convert exCPlan) },
+      { name := "ints".toList, source := .slice (.basic .int), target := .slice (.basic .int), args := [], contexts := [],
+        returnError := false, updateTarget := false, explicit := false, dirty := false, originPath := [], originName := [],
+        cfg := { common := {} }, body := some (.convert .ident) }] }
+
+example : PlanCheckS.checkProgS exCProgram = true := by decide
+example : PlanCheckS.progHasShare exCProgram = true := by decide
+
+def exCValue : Val := .struct [("A".toList, .slice (.src 1) [.basic "1".toList])]
+
+/-- the slice of the result is the source's: shared through the called method -/
+example : Eval.callMethod exCProgram 10 0 exCValue [] 0 = .ok (exCValue, 0) := by
+  unfold Eval.callMethod
+  simp [exCProgram, exCPlan, exCValue, exCFields, Eval.callMethod, evalConv, evalFields, walk, fieldOf, setField,
+    normStruct, zeroVal, zeroVal.zeroFields, under, Fields.toList, Val.isAbsent, bind, StateT.bind, pure, StateT.pure,
+    List.lookup, List.filterMapM, List.filterMapM.loop, argOf]
+
+open Gv.Sound in
+example : SharedCall exCProgram 0 exCValue (.src 1) := by
+  refine ⟨_, exCPlan, rfl, rfl, ?_⟩
+  refine .structc (sfs := exCFields) (tfs := exCFields) rfl rfl ?_
+  simp only [exCFields, Fields.toList]
+  refine SharedAtFields.here (tf := { name := "A".toList, exported := true, embedded := false, pkg := [] })
+    (sf := { name := "A".toList, exported := true, embedded := false, pkg := [] })
+    (sty := .slice (.basic .int)) (x := .slice (.src 1) [.basic "1".toList]) rfl ?_ ?_ ?_
+  · rfl
+  · rfl
+  · exact .call (c := .ident) (m := 1) rfl rfl rfl rfl (.ident (by simp [allLocs, allLocs.locsList]))
 
 end Gv.Props.C04
